@@ -17,6 +17,7 @@ PARTIAL = [
     "start); where it is active the documented flooring of C09 changes fractions by design (counted, not a violation)",
 ]
 ASSUMPTIONS = ["Python exception classes/messages are mapped to the model's error enum by message text"]
+OPTIMIZED_TWIN = True   # the implementation-side search is repeated under `python -O` (validation must not live in assert / __debug__)
 TRUSTED = ["harness/solver.py scenario driver and LSODA recorder"]
 
 
